@@ -158,7 +158,8 @@ pub fn cells(tier: Tier) -> Vec<CellPlan> {
     v.push(plan(c, 1, 2.0));
 
     // One broadcast re-stamped for recipients whose update ticks have different encoded sizes.
-    for off in [124, 126] {
+    // (... 1 | 2 bytes, and the other size boundaries of the tick's encoding: 2 | 3, 3 | 4, 4 | 5 bytes)
+    for off in [124, 126, (1 << 14) - 3, (1 << 21) - 3, (1 << 28) - 3] {
         v.push(plan(super::c04::ticks_3c("C05", off, q), if q { 0 } else { 1 }, 1.0));
     }
     v
